@@ -7,21 +7,27 @@ EXTENDS MonRoute
 
 Init == [i |-> 0, viol |-> {}, R |-> RInit,
          deliv |-> <<>>,      \* requests handed to applications: [a, key, c, answered]
+         taint |-> {},        \* identifiers of requests that arrived on two different connections (the answer message cannot tell them apart)
          prevCst |-> <<>>]    \* connection states at the previous quiescent point
 
 StOf(cst, c) == IF \E i \in 1..Len(cst) : cst[i].c = c THEN cst[CHOOSE i \in 1..Len(cst) : cst[i].c = c].st ELSE ""
 
 \* process the observations of one step in order
 OnOut(A, e) ==
-  CASE e.ev = "app_req" -> [A EXCEPT !.deliv = Append(@, [a |-> e.a, key |-> Key(e.m), c |-> e.c, answered |-> FALSE])]
+  CASE e.ev = "app_req" -> [A EXCEPT !.deliv = Append(@, [a |-> e.a, key |-> Key(e.m), c |-> e.c, answered |-> FALSE]),
+                                     !.taint = IF \E y \in 1..Len(A.deliv) : A.deliv[y].key = Key(e.m) /\ A.deliv[y].c # e.c
+                                               THEN @ \cup {Key(e.m)} ELSE @]
     [] e.ev = "submit" ->
          LET idx   == {j \in 1..Len(A.deliv) : A.deliv[j].a = e.a /\ A.deliv[j].key = Key(e.m) /\ (A.c0 = 0 \/ A.deliv[j].c = A.c0)}
              open  == {j \in idx : ~A.deliv[j].answered}
          IN IF idx = {} THEN A      \* an answer to something that was never delivered: outside the statement
             ELSE LET j == IF open # {} THEN CHOOSE y \in open : \A z \in open : y >= z      \* the most recent delivery not yet answered
                           ELSE CHOOSE y \in idx : \A z \in idx : y >= z
+                     \* the same identifiers are awaiting an answer on another connection too: the answer message
+                     \* alone cannot say which request it answers
+                     amb == Key(e.m) \in A.taint
                  IN [A EXCEPT !.deliv[j].answered = TRUE,
-                              !.subs = Append(@, [key |-> Key(e.m), c |-> A.deliv[j].c, r |-> e.r, again |-> open = {}]),
+                              !.subs = Append(@, [key |-> Key(e.m), c |-> A.deliv[j].c, r |-> e.r, again |-> open = {}, amb |-> amb]),
                               !.seen = Append(@, e)]
     [] OTHER -> [A EXCEPT !.seen = Append(@, e)]
 
@@ -29,20 +35,22 @@ StepN(M, st) ==
   LET M0  == [M EXCEPT !.i = @ + 1]
       out == st.out
       c0  == IF st.act.a = "submit" /\ "c0" \in DOMAIN st.act THEN st.act.c0 ELSE 0
-      A0  == [deliv |-> M0.deliv, subs |-> <<>>, seen |-> <<>>, c0 |-> c0]
+      A0  == [deliv |-> M0.deliv, subs |-> <<>>, seen |-> <<>>, c0 |-> c0, taint |-> M0.taint]
       A   == FoldLeft(OnOut, A0, out)
       txOf(key) == {j \in 1..Len(out) : out[j].ev = "tx" /\ ~out[j].m.req /\ Key(out[j].m) = key}
       \* judgement of each submission of this step
       bad(s) ==
-        (IF s.r = "ok" /\ s.again THEN {"second_answer_transmitted"} ELSE {}) \cup
-        (IF s.r = "ok" /\ ~s.again /\ \E j \in txOf(s.key) : out[j].c # s.c THEN {"answer_transmitted_on_other_connection"} ELSE {}) \cup
+        (IF s.r = "ok" /\ s.again THEN {IF s.amb THEN "second_answer_transmitted:identical_ids_in_flight_on_two_connections" ELSE "second_answer_transmitted"} ELSE {}) \cup
+        (IF s.r = "ok" /\ ~s.again /\ \E j \in txOf(s.key) : out[j].c # s.c
+            THEN {IF s.amb THEN "answer_transmitted_on_other_connection:identical_ids_in_flight_on_two_connections" ELSE "answer_transmitted_on_other_connection"} ELSE {}) \cup
         (IF s.r = "ok" /\ ~s.again /\ (~\E j \in txOf(s.key) : out[j].c = s.c)
-            /\ ~IsClosed(st.snap, s.c) THEN {"accepted_answer_not_transmitted"} ELSE {}) \cup
+            /\ ~IsClosed(st.snap, s.c)
+            THEN {IF s.amb THEN "accepted_answer_not_transmitted:identical_ids_in_flight_on_two_connections" ELSE "accepted_answer_not_transmitted"} ELSE {}) \cup
         (IF s.r # "ok" /\ txOf(s.key) # {} /\ Cardinality({x \in 1..Len(A.subs) : A.subs[x].key = s.key}) = 1 THEN {"answer_transmitted_despite_error"} ELSE {}) \cup
         (IF s.r = "ok" /\ st.act.a = "submit" /\ StOf(M0.prevCst, s.c) \notin READY THEN {"answer_accepted_for_connection_not_ready"} ELSE {}) \cup
         (IF s.r \notin {"ok", "NotRoutable"} THEN {"submission_failed_with_other_error"} ELSE {})
       sigs == UNION {bad(A.subs[x]) : x \in 1..Len(A.subs)}
-  IN [M0 EXCEPT !.viol = @ \cup {[sig |-> s, at |-> M0.i] : s \in sigs}, !.deliv = A.deliv, !.prevCst = st.snap.cst,
+  IN [M0 EXCEPT !.viol = @ \cup {[sig |-> s, at |-> M0.i] : s \in sigs}, !.deliv = A.deliv, !.taint = A.taint, !.prevCst = st.snap.cst,
                 !.R = RUpdate(M0.R, st)]
 Step(M, s0) == StepN(M, Norm(s0))
 =============================================================================
